@@ -336,7 +336,7 @@ def run(prop, tier):
             # shortest failing script first
             state["oracle"].sort(key=lambda x: len(x[2] or ""))
             label, ln, case = state["oracle"][0]
-            kinds = sorted({re.sub(r"case=\S+ ", "", l).split()[0] for _, l, _ in state["oracle"]})
+            kinds = sorted({re.sub(r"^ORACLE case=\S+ ", "", l).split()[0] for _, l, _ in state["oracle"]})
             ck.violation("oracle", replay_text(label, "property oracle on the real process: " + ln, case),
                          "property fails on the real code: %s (%d oracle lines in this run, kinds: %s)" % (ln[:300], len(state["oracle"]), ", ".join(kinds)))
         if state["aborts"]:
